@@ -26,9 +26,14 @@
 #define MS 64 /* metadata scratch, larger than any meta struct */
 
 /* run r writes into out[r], uses meta scratch ms[r]; returns the call's result */
-static uint8_t out[2][BUF];
-static uint64_t dec[2][N + 1];
-static union {
+/* NOTE: no arrays of arrays. CBMC 6.11 mis-models byte updates through a pointer into a row of a 2-D array
+ * (`uint8_t out[2][BUF]`: the second varintBP128Encode64 call "lost" the bits of its second value - a counterexample
+ * that reproduces neither natively nor with two separate 1-D arrays), so every buffer is its own object. */
+static uint8_t o0_[BUF], o1_[BUF];
+static uint8_t *const out[2] = {o0_, o1_};
+static uint64_t d0_[N + 1], d1_[N + 1];
+static uint64_t *const dec[2] = {d0_, d1_};
+static union vp_meta_scratch {
     uint8_t raw[MS];
     varintFORMeta f;
     varintPFORMeta p;
@@ -37,7 +42,8 @@ static union {
     varintBP128Meta b;
     varintAdaptiveMeta a;
     varintAdaptiveDataStats s;
-} ms[2];
+} m0_, m1_;
+static union vp_meta_scratch *const msp[2] = {&m0_, &m1_};
 
 #define EQ(tag, expr) VP_ASSERT("P:determ." tag, (expr))
 
@@ -52,8 +58,8 @@ void harness(void) {
         out[1][i] = resid1[i];
     }
     for (unsigned i = 0; i < MS; i++) {
-        ms[0].raw[i] = mres0[i];
-        ms[1].raw[i] = mres1[i];
+        msp[0]->raw[i] = mres0[i];
+        msp[1]->raw[i] = mres1[i];
     }
     for (unsigned i = 0; i <= N; i++) {
         dec[0][i] = resid0[i];
@@ -66,17 +72,17 @@ void harness(void) {
     (void)v32;
 #if CODEC >= 20 && CODEC < 30 /* adaptive forced encodings 20..25 */
     for (int r = 0; r < 2; r++)
-        w[r] = varintAdaptiveEncodeWith(out[r], v, N, (varintAdaptiveEncodingType)(CODEC - 20), &ms[r].a);
+        w[r] = varintAdaptiveEncodeWith(out[r], v, N, (varintAdaptiveEncodingType)(CODEC - 20), &msp[r]->a);
     EQ("adaptive.encodewith.len", w[0] == w[1]);
     for (unsigned i = 0; i < BUF; i++)
         if (i < w[0])
             EQ("adaptive.encodewith.bytes", out[0][i] == out[1][i]);
-    EQ("adaptive.encodewith.meta", ms[0].a.encodingType == ms[1].a.encodingType && ms[0].a.originalCount == ms[1].a.originalCount &&
-                                       ms[0].a.encodedSize == ms[1].a.encodedSize);
+    EQ("adaptive.encodewith.meta", msp[0]->a.encodingType == msp[1]->a.encodingType && msp[0]->a.originalCount == msp[1]->a.originalCount &&
+                                       msp[0]->a.encodedSize == msp[1]->a.encodedSize);
 #if CODEC == 21
-    EQ("adaptive.encodewith.formeta", ms[0].a.encodingMeta.forMeta.minValue == ms[1].a.encodingMeta.forMeta.minValue &&
-                                          ms[0].a.encodingMeta.forMeta.offsetWidth == ms[1].a.encodingMeta.forMeta.offsetWidth &&
-                                          ms[0].a.encodingMeta.forMeta.count == ms[1].a.encodingMeta.forMeta.count);
+    EQ("adaptive.encodewith.formeta", msp[0]->a.encodingMeta.forMeta.minValue == msp[1]->a.encodingMeta.forMeta.minValue &&
+                                          msp[0]->a.encodingMeta.forMeta.offsetWidth == msp[1]->a.encodingMeta.forMeta.offsetWidth &&
+                                          msp[0]->a.encodingMeta.forMeta.count == msp[1]->a.encodingMeta.forMeta.count);
 #endif
     /* decode side: equal encoded bytes, different residue.  The header byte is asserted and then handed over as a
      * literal so that symbolic execution follows one arm of the decoder's dispatch. */
@@ -86,116 +92,116 @@ void harness(void) {
     e0[0] = e1[0] = (CODEC - 20);
     for (unsigned i = 1; i < BUF; i++)
         e0[i] = e1[i] = out[0][i];
-    size_t d0 = varintAdaptiveDecode(e0, dec[0], N, &ms[0].a);
-    size_t d1 = varintAdaptiveDecode(e1, dec[1], N, &ms[1].a);
+    size_t d0 = varintAdaptiveDecode(e0, dec[0], N, &msp[0]->a);
+    size_t d1 = varintAdaptiveDecode(e1, dec[1], N, &msp[1]->a);
     EQ("adaptive.decode.count", d0 == d1);
     for (unsigned i = 0; i < N; i++)
         if (i < d0)
             EQ("adaptive.decode.values", dec[0][i] == dec[1][i]);
-    EQ("adaptive.decode.meta", ms[0].a.encodingType == ms[1].a.encodingType && ms[0].a.originalCount == ms[1].a.originalCount);
+    EQ("adaptive.decode.meta", msp[0]->a.encodingType == msp[1]->a.encodingType && msp[0]->a.originalCount == msp[1]->a.originalCount);
 #if CODEC == 22
     EQ("adaptive.decode.pformeta",
-       ms[0].a.encodingMeta.pforMeta.min == ms[1].a.encodingMeta.pforMeta.min &&
-           ms[0].a.encodingMeta.pforMeta.width == ms[1].a.encodingMeta.pforMeta.width &&
-           ms[0].a.encodingMeta.pforMeta.count == ms[1].a.encodingMeta.pforMeta.count &&
-           ms[0].a.encodingMeta.pforMeta.exceptionCount == ms[1].a.encodingMeta.pforMeta.exceptionCount &&
-           ms[0].a.encodingMeta.pforMeta.exceptionMarker == ms[1].a.encodingMeta.pforMeta.exceptionMarker &&
-           ms[0].a.encodingMeta.pforMeta.thresholdValue == ms[1].a.encodingMeta.pforMeta.thresholdValue);
+       msp[0]->a.encodingMeta.pforMeta.min == msp[1]->a.encodingMeta.pforMeta.min &&
+           msp[0]->a.encodingMeta.pforMeta.width == msp[1]->a.encodingMeta.pforMeta.width &&
+           msp[0]->a.encodingMeta.pforMeta.count == msp[1]->a.encodingMeta.pforMeta.count &&
+           msp[0]->a.encodingMeta.pforMeta.exceptionCount == msp[1]->a.encodingMeta.pforMeta.exceptionCount &&
+           msp[0]->a.encodingMeta.pforMeta.exceptionMarker == msp[1]->a.encodingMeta.pforMeta.exceptionMarker &&
+           msp[0]->a.encodingMeta.pforMeta.thresholdValue == msp[1]->a.encodingMeta.pforMeta.thresholdValue);
 #endif
 #elif CODEC == 30 /* automatic analysis + selection */
     for (int r = 0; r < 2; r++)
-        varintAdaptiveAnalyze(v, N, &ms[r].s);
-    EQ("adaptive.analyze", ms[0].s.count == ms[1].s.count && ms[0].s.minValue == ms[1].s.minValue && ms[0].s.maxValue == ms[1].s.maxValue &&
-                               ms[0].s.range == ms[1].s.range && ms[0].s.uniqueCount == ms[1].s.uniqueCount &&
-                               ms[0].s.avgDelta == ms[1].s.avgDelta && ms[0].s.maxDelta == ms[1].s.maxDelta &&
-                               ms[0].s.outlierCount == ms[1].s.outlierCount && ms[0].s.isSorted == ms[1].s.isSorted &&
-                               ms[0].s.isReverseSorted == ms[1].s.isReverseSorted && ms[0].s.fitsInBitmapRange == ms[1].s.fitsInBitmapRange);
-    EQ("adaptive.select", varintAdaptiveSelectEncoding(&ms[0].s) == varintAdaptiveSelectEncoding(&ms[1].s));
+        varintAdaptiveAnalyze(v, N, &msp[r]->s);
+    EQ("adaptive.analyze", msp[0]->s.count == msp[1]->s.count && msp[0]->s.minValue == msp[1]->s.minValue && msp[0]->s.maxValue == msp[1]->s.maxValue &&
+                               msp[0]->s.range == msp[1]->s.range && msp[0]->s.uniqueCount == msp[1]->s.uniqueCount &&
+                               msp[0]->s.avgDelta == msp[1]->s.avgDelta && msp[0]->s.maxDelta == msp[1]->s.maxDelta &&
+                               msp[0]->s.outlierCount == msp[1]->s.outlierCount && msp[0]->s.isSorted == msp[1]->s.isSorted &&
+                               msp[0]->s.isReverseSorted == msp[1]->s.isReverseSorted && msp[0]->s.fitsInBitmapRange == msp[1]->s.fitsInBitmapRange);
+    EQ("adaptive.select", varintAdaptiveSelectEncoding(&msp[0]->s) == varintAdaptiveSelectEncoding(&msp[1]->s));
 #elif CODEC == 1 /* FOR: meta->count != N is the documented "not analysed yet" in-field */
-    VP_ASSUME(ms[0].f.count != N && ms[1].f.count != N);
+    VP_ASSUME(msp[0]->f.count != N && msp[1]->f.count != N);
     for (int r = 0; r < 2; r++)
-        w[r] = varintFOREncode(out[r], v, N, &ms[r].f);
+        w[r] = varintFOREncode(out[r], v, N, &msp[r]->f);
     EQ("for.len", w[0] == w[1]);
     for (unsigned i = 0; i < BUF; i++)
         if (i < w[0])
             EQ("for.bytes", out[0][i] == out[1][i]);
-    EQ("for.meta", ms[0].f.minValue == ms[1].f.minValue && ms[0].f.maxValue == ms[1].f.maxValue && ms[0].f.range == ms[1].f.range &&
-                       ms[0].f.count == ms[1].f.count && ms[0].f.encodedSize == ms[1].f.encodedSize &&
-                       ms[0].f.offsetWidth == ms[1].f.offsetWidth);
+    EQ("for.meta", msp[0]->f.minValue == msp[1]->f.minValue && msp[0]->f.maxValue == msp[1]->f.maxValue && msp[0]->f.range == msp[1]->f.range &&
+                       msp[0]->f.count == msp[1]->f.count && msp[0]->f.encodedSize == msp[1]->f.encodedSize &&
+                       msp[0]->f.offsetWidth == msp[1]->f.offsetWidth);
     for (unsigned i = 0; i < BUF; i++)
         out[1][i] = out[0][i];
     EQ("for.decode", varintFORDecode(out[0], dec[0], N) == varintFORDecode(out[1], dec[1], N));
     for (unsigned i = 0; i < N; i++)
         EQ("for.decode.values", dec[0][i] == dec[1][i]);
-    varintFORReadMetadata(out[0], &ms[0].f);
-    varintFORReadMetadata(out[1], &ms[1].f);
-    EQ("for.readmeta", ms[0].f.minValue == ms[1].f.minValue && ms[0].f.maxValue == ms[1].f.maxValue && ms[0].f.range == ms[1].f.range &&
-                           ms[0].f.count == ms[1].f.count && ms[0].f.encodedSize == ms[1].f.encodedSize &&
-                           ms[0].f.offsetWidth == ms[1].f.offsetWidth);
+    varintFORReadMetadata(out[0], &msp[0]->f);
+    varintFORReadMetadata(out[1], &msp[1]->f);
+    EQ("for.readmeta", msp[0]->f.minValue == msp[1]->f.minValue && msp[0]->f.maxValue == msp[1]->f.maxValue && msp[0]->f.range == msp[1]->f.range &&
+                           msp[0]->f.count == msp[1]->f.count && msp[0]->f.encodedSize == msp[1]->f.encodedSize &&
+                           msp[0]->f.offsetWidth == msp[1]->f.offsetWidth);
 #elif CODEC == 2 /* PFOR */
     for (int r = 0; r < 2; r++)
-        w[r] = varintPFOREncode(out[r], v, N, 95, &ms[r].p);
+        w[r] = varintPFOREncode(out[r], v, N, 95, &msp[r]->p);
     EQ("pfor.len", w[0] == w[1]);
     for (unsigned i = 0; i < BUF; i++)
         if (i < w[0])
             EQ("pfor.bytes", out[0][i] == out[1][i]);
-    EQ("pfor.meta", ms[0].p.min == ms[1].p.min && ms[0].p.exceptionMarker == ms[1].p.exceptionMarker &&
-                        ms[0].p.thresholdValue == ms[1].p.thresholdValue && ms[0].p.width == ms[1].p.width && ms[0].p.count == ms[1].p.count &&
-                        ms[0].p.exceptionCount == ms[1].p.exceptionCount && ms[0].p.threshold == ms[1].p.threshold);
+    EQ("pfor.meta", msp[0]->p.min == msp[1]->p.min && msp[0]->p.exceptionMarker == msp[1]->p.exceptionMarker &&
+                        msp[0]->p.thresholdValue == msp[1]->p.thresholdValue && msp[0]->p.width == msp[1]->p.width && msp[0]->p.count == msp[1]->p.count &&
+                        msp[0]->p.exceptionCount == msp[1]->p.exceptionCount && msp[0]->p.threshold == msp[1]->p.threshold);
     for (unsigned i = 0; i < BUF; i++)
         out[1][i] = out[0][i];
     /* documented in-field of the decoder: width == 0 means "read the header" */
     for (unsigned i = 0; i < MS; i++) {
-        ms[0].raw[i] = mres0[i];
-        ms[1].raw[i] = mres1[i];
+        msp[0]->raw[i] = mres0[i];
+        msp[1]->raw[i] = mres1[i];
     }
-    ms[0].p.width = 0;
-    ms[1].p.width = 0;
-    EQ("pfor.decode", varintPFORDecode(out[0], dec[0], &ms[0].p) == varintPFORDecode(out[1], dec[1], &ms[1].p));
+    msp[0]->p.width = 0;
+    msp[1]->p.width = 0;
+    EQ("pfor.decode", varintPFORDecode(out[0], dec[0], &msp[0]->p) == varintPFORDecode(out[1], dec[1], &msp[1]->p));
     for (unsigned i = 0; i < N; i++)
         EQ("pfor.decode.values", dec[0][i] == dec[1][i]);
-    EQ("pfor.readmeta", ms[0].p.min == ms[1].p.min && ms[0].p.exceptionMarker == ms[1].p.exceptionMarker && ms[0].p.width == ms[1].p.width &&
-                            ms[0].p.count == ms[1].p.count && ms[0].p.exceptionCount == ms[1].p.exceptionCount &&
-                            ms[0].p.threshold == ms[1].p.threshold && ms[0].p.thresholdValue == ms[1].p.thresholdValue);
+    EQ("pfor.readmeta", msp[0]->p.min == msp[1]->p.min && msp[0]->p.exceptionMarker == msp[1]->p.exceptionMarker && msp[0]->p.width == msp[1]->p.width &&
+                            msp[0]->p.count == msp[1]->p.count && msp[0]->p.exceptionCount == msp[1]->p.exceptionCount &&
+                            msp[0]->p.threshold == msp[1]->p.threshold && msp[0]->p.thresholdValue == msp[1]->p.thresholdValue);
 #elif CODEC == 3 /* RLE both formats */
     for (int r = 0; r < 2; r++)
-        w[r] = varintRLEEncodeWithHeader(out[r], v, N, &ms[r].r);
+        w[r] = varintRLEEncodeWithHeader(out[r], v, N, &msp[r]->r);
     EQ("rle.len", w[0] == w[1]);
     for (unsigned i = 0; i < BUF; i++)
         if (i < w[0])
             EQ("rle.bytes", out[0][i] == out[1][i]);
-    EQ("rle.meta", ms[0].r.count == ms[1].r.count && ms[0].r.runCount == ms[1].r.runCount && ms[0].r.encodedSize == ms[1].r.encodedSize &&
-                       ms[0].r.uniqueValues == ms[1].r.uniqueValues);
+    EQ("rle.meta", msp[0]->r.count == msp[1]->r.count && msp[0]->r.runCount == msp[1]->r.runCount && msp[0]->r.encodedSize == msp[1]->r.encodedSize &&
+                       msp[0]->r.uniqueValues == msp[1]->r.uniqueValues);
     for (unsigned i = 0; i < BUF; i++)
         out[1][i] = out[0][i];
     EQ("rle.decode", varintRLEDecodeWithHeader(out[0], dec[0], N) == varintRLEDecodeWithHeader(out[1], dec[1], N));
     for (unsigned i = 0; i < N; i++)
         EQ("rle.decode.values", dec[0][i] == dec[1][i]);
-    varintRLEAnalyze(v, N, &ms[0].r);
-    varintRLEAnalyze(v, N, &ms[1].r);
-    EQ("rle.analyze", ms[0].r.count == ms[1].r.count && ms[0].r.runCount == ms[1].r.runCount && ms[0].r.encodedSize == ms[1].r.encodedSize &&
-                          ms[0].r.uniqueValues == ms[1].r.uniqueValues);
+    varintRLEAnalyze(v, N, &msp[0]->r);
+    varintRLEAnalyze(v, N, &msp[1]->r);
+    EQ("rle.analyze", msp[0]->r.count == msp[1]->r.count && msp[0]->r.runCount == msp[1]->r.runCount && msp[0]->r.encodedSize == msp[1]->r.encodedSize &&
+                          msp[0]->r.uniqueValues == msp[1]->r.uniqueValues);
 #elif CODEC == 4 /* Elias gamma + delta arrays */
     for (unsigned i = 0; i < N; i++)
         VP_ASSUME(v[i] >= 1);
     for (int r = 0; r < 2; r++)
-        w[r] = varintEliasGammaEncodeArray(out[r], v, N, &ms[r].e);
+        w[r] = varintEliasGammaEncodeArray(out[r], v, N, &msp[r]->e);
     EQ("elias.gamma.len", w[0] == w[1]);
     for (unsigned i = 0; i < BUF; i++)
         if (i < w[0])
             EQ("elias.gamma.bytes", out[0][i] == out[1][i]);
-    EQ("elias.gamma.meta", ms[0].e.count == ms[1].e.count && ms[0].e.totalBits == ms[1].e.totalBits && ms[0].e.encodedBytes == ms[1].e.encodedBytes);
+    EQ("elias.gamma.meta", msp[0]->e.count == msp[1]->e.count && msp[0]->e.totalBits == msp[1]->e.totalBits && msp[0]->e.encodedBytes == msp[1]->e.encodedBytes);
 #elif CODEC == 5 /* BP128 four encoders */
     for (unsigned i = 1; i < N; i++)
         VP_ASSUME(v[i - 1] <= v[i]);
 #if SUB == 0
-#define BPENC(r) varintBP128Encode32(out[r], v32, N, &ms[r].b)
+#define BPENC(r) varintBP128Encode32(out[r], v32, N, &msp[r]->b)
 #elif SUB == 1
-#define BPENC(r) varintBP128Encode64(out[r], v, N, &ms[r].b)
+#define BPENC(r) varintBP128Encode64(out[r], v, N, &msp[r]->b)
 #elif SUB == 2
-#define BPENC(r) varintBP128DeltaEncode32(out[r], v32, N, &ms[r].b)
+#define BPENC(r) varintBP128DeltaEncode32(out[r], v32, N, &msp[r]->b)
 #else
-#define BPENC(r) varintBP128DeltaEncode64(out[r], v, N, &ms[r].b)
+#define BPENC(r) varintBP128DeltaEncode64(out[r], v, N, &msp[r]->b)
 #endif
     w[0] = BPENC(0);
     w[1] = BPENC(1);
@@ -203,8 +209,8 @@ void harness(void) {
     for (unsigned i = 0; i < BUF; i++)
         if (i < w[0])
             EQ("bp128.bytes", out[0][i] == out[1][i]);
-    EQ("bp128.meta", ms[0].b.count == ms[1].b.count && ms[0].b.blockCount == ms[1].b.blockCount && ms[0].b.encodedBytes == ms[1].b.encodedBytes &&
-                         ms[0].b.lastBlockSize == ms[1].b.lastBlockSize && ms[0].b.maxBitWidth == ms[1].b.maxBitWidth);
+    EQ("bp128.meta", msp[0]->b.count == msp[1]->b.count && msp[0]->b.blockCount == msp[1]->b.blockCount && msp[0]->b.encodedBytes == msp[1]->b.encodedBytes &&
+                         msp[0]->b.lastBlockSize == msp[1]->b.lastBlockSize && msp[0]->b.maxBitWidth == msp[1]->b.maxBitWidth);
 #elif CODEC == 6 /* dictionary */
     for (int r = 0; r < 2; r++)
         w[r] = varintDictEncode(out[r], v, N);
